@@ -435,5 +435,12 @@ func (w *world) guardedStep(i int, st simcore.Step) (ok bool) {
 			ok = false
 		}
 	}()
-	return w.step(i, st)
+	before := w.incentiveExcess()
+	ok = w.step(i, st)
+	if ok || !w.run.Stop() {
+		if !w.incentiveConservation(st.Op, before) {
+			ok = false
+		}
+	}
+	return ok
 }
